@@ -20,10 +20,11 @@ trap 'rm -rf "$S"' EXIT
 rsync -a --exclude target --exclude .git /repo/ "$S/clean/"
 rsync -a "$S/clean/" "$S/mut/"
 ( cd "$S/mut" && git init -q . && git apply "$D/patch.diff" ) || { echo "patch does not apply"; exit 2; }
-mkdir -p "$S/clean/examples" "$S/mut/examples"
-cp "$D/demo_mutant.rs" "$S/clean/examples/demo_mutant.rs"; cp "$D/demo_mutant.rs" "$S/mut/examples/demo_mutant.rs"
 echo "--- repository tests on the changed tree"
 ( cd "$S/mut" && CARGO_TARGET_DIR="$S/target" cargo test --workspace --no-fail-fast --offline 2>&1 | grep -E "^test result|FAILED|failed" | head -8 ) | tee "$S/tests.txt"
+# the demonstration is added only now: one that needs a cargo feature must not break the default-feature test build
+mkdir -p "$S/clean/examples" "$S/mut/examples"
+cp "$D/demo_mutant.rs" "$S/clean/examples/demo_mutant.rs"; cp "$D/demo_mutant.rs" "$S/mut/examples/demo_mutant.rs"
 tests_ok=$(grep -c "FAILED\|failed;" "$S/tests.txt" | head -1); passed=$(grep -o "[0-9]* passed" "$S/tests.txt" | awk '{s+=$1} END{print s}')
 echo "--- demonstration with the change"
 ( cd "$S/mut" && env "${demo_env[@]}" CARGO_TARGET_DIR="$S/target-demo" timeout 1200 cargo run --offline --release "${feat[@]}" --example demo_mutant > "$S/demo_mut.txt" 2>&1 ); rc_mut=$?
